@@ -144,6 +144,27 @@ func (ic *incorp) deps1(v ssa.Value) depSet {
 				}
 			}
 		}
+		// a local list that is sorted in place before it is used: its elements reach the use in sorted order, not in the
+		// order they were produced in (`ids = append(ids, id)` … `slices.Sort(ids)`): the dependence is on the sorted list
+		if refs := x.Referrers(); refs != nil {
+			sorted := false
+			for _, r := range *refs {
+				ld, ok := r.(*ssa.UnOp)
+				if !ok || ld.Referrers() == nil {
+					continue
+				}
+				for _, u := range *ld.Referrers() {
+					if call, ok := u.(*ssa.Call); ok && call.Call.StaticCallee() != nil && len(call.Call.Args) > 0 && call.Call.Args[0] == ssa.Value(ld) {
+						if nm := call.Call.StaticCallee().String(); strings.HasPrefix(nm, "slices.Sort") || strings.HasPrefix(nm, "sort.") {
+							sorted = true
+						}
+					}
+				}
+			}
+			if sorted {
+				return wrapTag("sorted", out)
+			}
+		}
 	case *ssa.UnOp:
 		out.add(ic.deps(x.X))
 	case *ssa.Convert:
